@@ -37,6 +37,9 @@ def dict_plan(kinds, small, large):
                 plan.append((k * NCLASS + c, large, 420))
     # longest jobs first
     plan.sort(key=lambda t: -(t[0] % NCLASS))
+    mult = int(os.environ.get("VERIF_CASE_MULT", "1"))   # development aid
+    if mult != 1:
+        plan = [(a, b * mult, c) for (a, b, c) in plan]
     return plan
 
 
